@@ -79,7 +79,7 @@ type Rec struct {
 	mu      sync.Mutex
 	seq     int64
 	events  []Event
-	procOf  map[int64]int  // goroutine id -> process id
+	procOf  map[int64]int // goroutine id -> process id
 	clientR map[int]*clientReg
 	subOf   map[rpc.ID]int // subscription id -> number
 	chOf    map[uintptr]int
@@ -94,6 +94,8 @@ type Rec struct {
 	last    time.Time
 	// indexer events are kept apart
 	Drop func(ev Event) bool
+	// Hook, when set, sees every raw hook call (after it was recorded, without the recorder's lock): scenario steering
+	Hook func(proc, label string, p, sub int)
 	// Sink, when set, receives every event as one JSON line at once (a panic must not lose the trace)
 	Sink *os.File
 }
@@ -158,8 +160,12 @@ func (r *Rec) at(proc, label string, args ...interface{}) {
 	r.mu.Lock()
 	r.Counts[proc+"."+label]++
 	ev, ok := r.resolve(g, proc, label, args)
+	hook := r.Hook
 	if !ok || (r.Drop != nil && r.Drop(ev)) {
 		r.mu.Unlock()
+		if hook != nil {
+			hook(proc, label, ev.P, ev.Sub)
+		}
 		return
 	}
 	if ev.L == "co_err" || (ev.L == "co_sel" && ev.Kind == "err") {
@@ -193,6 +199,9 @@ func (r *Rec) at(proc, label string, args ...interface{}) {
 	}
 	if pk != nil {
 		<-pk.release
+	}
+	if hook != nil {
+		hook(proc, label, ev.P, ev.Sub)
 	}
 }
 
@@ -377,8 +386,10 @@ func (r *Rec) resolve(g int64, proc, label string, args []interface{}) (Event, b
 		switch label {
 		case "locked":
 			ev.L = "tl_idle"
+		case "expire":
+			ev.L, ev.Kind, ev.Sub = "tl_sweep", "x", r.sub(args, 0)
 		case "unlock":
-			ev.L = "tl_unlock"
+			ev.L, ev.Kind = "tl_sweep", "u"
 		default:
 			return ev, false
 		}
